@@ -623,8 +623,9 @@ where
                     }
                 }
             }
-            Instruction::Next => todo!(),
-            Instruction::Last => todo!(),
+            Instruction::Next | Instruction::Last => {
+                return Err(self.err(MachineErrorType::InvalidInstruction));
+            }
             Instruction::Call(t) => match t {
                 Target::Unresolved(label) => {
                     return Err(self.err(MachineErrorType::UnresolvedTarget(label)));
